@@ -176,8 +176,14 @@ def evaluate(case, out):
     test = nonneg.make_test(cfg)
     xa = np.array(x, dtype=float)
     try:
+        keep = xa.copy()
         p, hist = test.test(xa)
         hist = as_list(hist, n)
+        p_again, hist_again = test.test(xa)   # same object, same array: the definitions do not depend on earlier calls
+        hist_again = as_list(hist_again, n)
+        out.expect(bool(np.array_equal(xa, keep)), "test-alters-the-callers-sample", lambda: (xa.tolist()[:6], keep.tolist()[:6]))
+        out.expect(all((a == b) or (math.isnan(a) and math.isnan(b)) for a, b in zip(hist, hist_again)),
+                   "second-evaluation-differs-from-the-first", lambda: (hist[:5], hist_again[:5]))
         seq = None
         if cfg["test"] == "alpha_mart":
             seq = as_list(test.estim(xa), n)
